@@ -9,7 +9,11 @@ CFG = {'assumptions': ['the section is in the property domain: 0 <= off, 0 <= n,
         'iohelper.File': 'iohelper.NewSectionWriter / AtToWriter call sequence over the in-memory file of the harness, the file content afterwards, '
                          'then iohelper.AtToReader + Read over the same file',
         'iohelper.TwoSections': 'two iohelper.NewSectionWriter over ONE in-memory file, their Write/WriteAt/Seek/Size calls interleaved, '
-                                'and the file content afterwards'},
+                                'and the file content afterwards',
+        'iohelper.Nested': 'sections of sections: NewSectionWriter / AtToWriter over a *SectionWriter over ... the in-memory file, calls '
+                           'addressed to any level, every (offset, bytes) the file receives and the file content afterwards',
+        'pbcmpl.File': 'pbcmpl.Marshal(iohelper.AtToWriter(memfile, off), msg) for several (off, msg) in one in-memory file, the file content, '
+                       'then pbcmpl.Unmarshal(iohelper.AtToReader(memfile, off), blank) for every off'},
  'rule': 'one case = one whole call sequence on a fresh section over a scripted mock io.WriterAt; every return value and '
          'every (absolute offset, bytes) the mock receives is observed per call. Cases = all sequences of 1..2 calls from '
          'a 36-call alphabet followed by Write(2) on sections n in 0..3 with the first underlying call answered by '
@@ -29,5 +33,14 @@ CFG = {'assumptions': ['the section is in the property domain: 0 <= off, 0 <= n,
                   'events x reader events. '
                   'iohelper.TwoSections = two section writers over one in-memory file with interleaved calls (2..24 calls, sections adjacent / '
                   'disjoint / overlapping / identical / second before first, n incl. 0 and 2^63-1-off, shared fault script); non-trivial when both '
-                  'writers stored bytes and the calls switched writer at least twice; key = section configuration x store events x writer events',
+                  'writers stored bytes and the calls switched writer at least twice; key = section configuration x store events x writer events. '
+                  'pbcmpl.File (cross-package) = 1..6 pbcmpl frames (body codecs raw / BytesValue / picky raw, payload 0..2100 bytes, with and '
+                  'without a version) marshalled through AtToWriter at offsets back to back / with gaps / overlapping / identical / anywhere, '
+                  'in ascending or shuffled order, over an initial file of 0..300 bytes, then unmarshalled through AtToReader at every offset '
+                  '(damaged frames included: invalid header size / body size, truncated body, decode error); BytesValue frames never overlap '
+                  '(the modelled decoder covers intact bodies only); non-trivial when at least two frames share the file. '
+                  'iohelper.Nested = 2 (occasionally 3) stacked section writers, the outer window inside / flush with / straddling / beyond '
+                  'the inner one, outer n = 0, inner n = 0, AtToWriter levels; 2..14 calls mostly on the outermost writer with direct calls '
+                  'on inner writers interleaved, fault scripts; exhaustive: inner (1, 0..4) x outer (0..5, {AtToWriter, 0..4}) x 5 call '
+                  'patterns; non-trivial when a Write/WriteAt was issued on an outer level',
  'shrink_s': 30}
